@@ -272,7 +272,7 @@ func (c c01cfg) build(extended bool, q string, cache *ChunkCache, pc map[string]
 
 func c01Lines(maxLen int) []*rline {
 	var out []*rline
-	kit.Strings([]rune{'a', 'b', 'A', 'á', ' ', '-', '_'}, 0, maxLen, func(s []rune) bool {
+	kit.Strings([]rune{'a', 'b', 'A', 'á', 'Á', ' ', '-', '_'}, 0, maxLen, func(s []rune) bool {
 		out = append(out, mkLine(string(s)))
 		return true
 	})
